@@ -194,7 +194,7 @@ def h_tables(ctx):
                  sh_offset=ctx.uint('s%d.offset' % i, A), sh_size=ctx.uint('s%d.size' % i, A), sh_link=ctx.uint('s%d.link' % i, 32),
                  sh_info=ctx.uint('s%d.info' % i, 32), sh_addralign=ctx.uint('s%d.align' % i, A), sh_entsize=ctx.uint('s%d.entsize' % i, A))
         secs.append(f)
-        img.section('.s%d' % i, **f)
+        img.section('.s%d' % i if variant != 'noshstr' else '', **f)
     segs = []
     for i in range(cfg['nseg']):
         t = ctx.uint('p%d.type' % i, 32)
@@ -204,7 +204,10 @@ def h_tables(ctx):
                  p_align=ctx.uint('p%d.align' % i, A))
         segs.append(f)
         img.segment(**f)
-    stridx = img.add_shstrtab(index_field=(variant != 'xindex'))
+    # 'noshstr': sections without a name table (e_shstrndx = SHN_UNDEF, "the file has no section name string table": objcopy
+    # --strip-section-names, core files with an extended segment count); everything but the names is still reported
+    stridx = img.add_shstrtab(index_field=(variant != 'xindex')) if variant != 'noshstr' else None
+    named = stridx is not None
     eh = {}
     if variant == 'xindex':
         img.sections[0]['sh_link'] = stridx
@@ -218,7 +221,7 @@ def h_tables(ctx):
                      gap=cfg.get('gap', 0), tail=cfg.get('tail', 0), **eh)
     elf = EF.ELFFile(ctx.stream(data))
     ctx.outcome('ok')
-    nsec_total = cfg['nsec'] + 2
+    nsec_total = cfg['nsec'] + (2 if named else 1)
     if variant == 'xnum_sh':
         ctx.check_eq('tables/num_sections/extended', elf.num_sections(), null_fields['sh_size'])
     else:
@@ -232,13 +235,15 @@ def h_tables(ctx):
                     _enum_ok(ctx, 'tables/section/sh_type', s[k], v, machine=cfg.get('machine', 'X86_64'))
                 else:
                     ctx.check_eq('tables/section/%s' % k, s[k], v)
-            ctx.check_eq('tables/section/name', s.name, '.s%d' % i)
+            if named:
+                ctx.check_eq('tables/section/name', s.name, '.s%d' % i)
             ctx.check_eq('tables/section/class', type(s).__name__, 'Section')
             if len(got) == nsec_total:
-                ctx.check_eq('tables/iter-order', [got[i + 1].name, got[i + 1]['sh_offset']], ['.s%d' % i, f['sh_offset']])
-        ctx.check_eq('tables/shstrtab/name', elf.get_section(stridx).name, '.shstrtab')
+                ctx.check_eq('tables/iter-order', [got[i + 1].name if named else '', got[i + 1]['sh_offset']], ['.s%d' % i if named else '', f['sh_offset']])
+        if named:
+            ctx.check_eq('tables/shstrtab/name', elf.get_section(stridx).name, '.shstrtab')
         ctx.check_eq('tables/null/class', type(elf.get_section(0)).__name__, 'NullSection')
-        ctx.check_eq('tables/get_shstrndx', elf.get_shstrndx(), stridx)
+        ctx.check_eq('tables/get_shstrndx', elf.get_shstrndx(), stridx if named else 0)
     if variant == 'xnum_ph':
         ctx.check_eq('tables/num_segments/extended', elf.num_segments(), null_fields['sh_info'])
     else:
@@ -419,6 +424,7 @@ def _tables_instances(tier):
         out.append(dict(elfclass=cls, little=little, nsec=1, nseg=0, variant='xindex', shslack=16))
         out.append(dict(elfclass=cls, little=little, nsec=1, nseg=1, variant='xnum_sh'))
         out.append(dict(elfclass=cls, little=little, nsec=1, nseg=1, variant='xnum_ph'))
+        out.append(dict(elfclass=cls, little=little, nsec=2, nseg=1, variant='noshstr'))
         if tier == 'thorough':
             out.append(dict(elfclass=cls, little=little, nsec=3, nseg=3, shslack=24, phslack=8, gap=7))
             for m in ('ARM', 'MIPS', 'RISCV', 'AARCH64', 'generic'):
